@@ -53,6 +53,8 @@ ENGINES = {
     "e_seg": {"dir": "e_seg", "units": _typed_units("e_seg.cpp")},
     "e_mapped": {"dir": "e_mapped", "units": [("inst.cpp", {"VF_KEY": t, "VF_KEYID": i}) for t, i in [
         ("uint16_t", "u16"), ("int16_t", "i16"), ("uint32_t", "u32"), ("int32_t", "i32"), ("uint64_t", "u64"), ("int64_t", "i64")]] + [("e_mapped.cpp", {})]},
+    "e_multidim": {"dir": "e_multidim", "units": [("inst.cpp", {"VF_D": d, "VF_T": t, "VF_ID": "d%s%s" % (d, i)}) for d in "234"
+                                                 for t, i in [("uint32_t", "u32"), ("uint64_t", "u64")]] + [("e_multidim.cpp", {})]},
     "e_variants": {"dir": "e_variants", "units": [
         ("inst.cpp", {"VF_KEY": "uint8_t", "VF_KEYID": "u8", "VF_KEYBITS": "8"}),
         ("inst.cpp", {"VF_KEY": "uint16_t", "VF_KEYID": "u16", "VF_KEYBITS": "16"}),
@@ -80,6 +82,10 @@ CHECKS = {
             "quick": {"shards": 8, "cases": 2000}, "thorough": {"shards": 16, "cases": 40000}},
     "C12": {"engine": "e_mapped",
             "quick": {"shards": 8, "cases": 1500}, "thorough": {"shards": 16, "cases": 30000}},
+    "C13": {"engine": "e_multidim",
+            "quick": {"shards": 8, "cases": 2000}, "thorough": {"shards": 16, "cases": 60000}},
+    "C14": {"engine": "e_multidim",
+            "quick": {"shards": 8, "cases": 2000}, "thorough": {"shards": 16, "cases": 60000}},
     "C07": {"engine": "e_static",
             "quick": {"shards": 8, "cases": 4000}, "thorough": {"shards": 16, "cases": 120000}},
 }
@@ -139,6 +145,14 @@ DESCR = {
                      "of the two written files, file unchanged by every reopen, every instance answers all queries like the std algorithms",
             "design_ref": "DESIGN.md section 6 C12", "note": "trusted: byte comparison of the files read back with ifstream; std algorithms; n <= 60000",
             "technique": "property-based testing over operation scripts; round-trip / differential oracle"},
+    "C13": {"level": "generated-input search over point multisets and boxes; the complete iterated sequence of range(min,max) is compared element-wise with the "
+                     "stored points inside the box ordered by an independent Morton encoder (multiplicity, order, termination)",
+            "design_ref": "DESIGN.md section 6 C13", "note": "trusted: bit-loop Morton encoder of the oracle (its bit convention is self-tested against the library on two unit points per case); n <= 6000 points per case",
+            "technique": "property-based testing vs brute-force box filter + independent Morton sort"},
+    "C14": {"level": "generated-input search: contains(p) for stored points, neighbours and absent points constructed below / between / above the stored codes, "
+                     "compared with multiset membership",
+            "design_ref": "DESIGN.md section 6 C14", "note": "trusted: bit-loop Morton encoder / decoder of the oracle; n <= 6000 points per case",
+            "technique": "property-based testing vs set-membership oracle"},
     "C07": {"level": "generated-input search with the routing hook: per level the chosen segment must be the responsible one, within EpsRec+1 of the prediction, "
                      "found inside the 2*EpsRec+3 window; level sizes obey floor(m/(2*EpsRec+1))+c",
             "design_ref": "DESIGN.md section 6 C07", "note": _STATIC_NOTE + "; relies on the PGM_INDEX_VERIF route_event hook",
